@@ -31,7 +31,7 @@ CMP = ("x", "fun", "jac", "nfev", "njev", "nit", "message", "sk", "yk")
 
 def floors(tier):
     return {"identity_pairs_compared": 60, "switch_runs": 250, "post_switch_states_checked": 800, "switches_dropping_pairs": 40,
-            "switches_newest_pair_rejected": 5, "restart_equivalence_checked": 250, "initial_call_rewrites_on_restart": 100, "pairs_of_zero_iteration_continuations_checked": 60, "switch_runs_with_new_objective_undefined_at_an_old_iterate": 40, "switch_runs_with_inert_differencing_step": 100, "__nontrivial__": 40}
+            "switches_newest_pair_rejected": 5, "restart_equivalence_checked": 250, "initial_call_rewrites_on_restart": 100, "filter_calls_on_histories_of_12_to_45_pairs": 300, "pairs_of_zero_iteration_continuations_checked": 60, "switch_runs_with_new_objective_undefined_at_an_old_iterate": 40, "switch_runs_with_inert_differencing_step": 100, "__nontrivial__": 40}
 
 
 def cases(tier, seed):
@@ -55,6 +55,18 @@ def cases(tier, seed):
                "eps_SY": float(gen.pick(rng, [2.2e-16, 2.2e-16, 1e-3, 1e-2, 0.1])),
                "rewrite": gen.pick(rng, ["new_deque", "new_deque", "same_deque", "same_arrays"]),
                "undefined_at": int(rng.integers(0, 8)) if i % 6 == 5 else None, "fd_step": float(gen.pick(rng, [1e-3, 1e-2, 0.1])) if i % 3 == 1 else None}
+    for i in range(100 if tier == "quick" else 4000):
+        # the curvature filter applied to a rewritten history, called directly on histories of up to 45 pairs (every retained pair must
+        # satisfy the condition with respect to the points actually kept around it)
+        yield {"kind": "filter", "seed": subseed("C13f", seed, i) % (2**31), "count": 30}
+    for i in range(160 if tier == "quick" else 6000):
+        # scale: 25 to 45 variables, a memory of 17 to 30 pairs, filled before the objective is redefined
+        ps = gen.rand_spec(rng, ("qp", "qp_quartic"), nmax=45, nmin=25, boxes=("none", "mixed", "boxed", "lower"), starts=("interior", "face"), condmax=1e3)
+        mc = int(rng.integers(17, 31))
+        yield {"kind": "switch", "problem": ps, "maxcor": mc, "maxiter": mc + int(rng.integers(6, 14)), "switch_at": mc + int(rng.integers(1, 5)),
+               "variant": gen.pick(rng, ["indefinite", "indefinite", "reg"]), "vseed": int(rng.integers(0, 2**31 - 1)), "strength": float(rng.uniform(0.1, 1.5)),
+               "eps_SY": float(gen.pick(rng, [2.2e-16, 1e-5, 1e-3, 1e-2])), "rewrite": gen.pick(rng, ["new_deque", "same_deque", "same_arrays"]),
+               "undefined_at": None, "fd_step": None, "large": True}
     for i in range(200 if tier == "quick" else 6000):
         ps = gen.rand_spec(rng, ("qp", "qp_quartic"), nmax=8, nmin=2, boxes=("none", "mixed", "boxed", "lower"), starts=("interior", "face"), condmax=1e2)
         yield {"kind": "switch", "problem": ps, "maxcor": int(rng.integers(2, 7)), "maxiter": int(rng.integers(6, 14)), "switch_at": int(rng.integers(2, 7)),
@@ -530,6 +542,11 @@ def run(spec):
         run_identity(spec, out)
         out.key = f"identity/{spec['problem']['family']}/{spec['problem']['seed']}"
         out.sample = dict(spec=spec)
+    elif spec["kind"] == "filter":
+        from .C10 import run_filter
+
+        run_filter(spec, out)
+        out.key = f"filter/{spec['seed']}"
     elif spec["kind"] == "switch_on_restart":
         run_switch_on_restart(spec, out)
         out.key = f"switch_on_restart/{spec['problem']['seed']}/{spec['vseed']}/{spec['stop_at']}"
